@@ -242,7 +242,7 @@ fn exhaustive_chunk(ctx: &mut Ctx, id: u64) {
 }
 
 fn directed(ctx: &mut Ctx, di: u64, r: &mut Rng) {
-    let mut sess = match Session::new(300 + di, CacheMode::None) {
+    let mut sess = match Session::new(300 + di, [CacheMode::None, CacheMode::Default, CacheMode::Tiny][((di + ctx.seed) % 3) as usize]) {
         Ok(s) => s,
         Err(f) => {
             ctx.violate(f.sig, f.detail, json!({"kind":"case"}));
@@ -422,8 +422,12 @@ fn run_case(ctx: &mut Ctx, id: u64) {
         directed(ctx, id - ne, &mut r);
         return;
     }
-    let (sess, res) = random_session(ctx, &mut r, CacheMode::None);
+    // what the replica accepts must not depend on its node cache: a third of the sessions each
+    // run with the cache off, default and tiny (writer and replica alike)
+    let cache = [CacheMode::None, CacheMode::Default, CacheMode::Tiny][(id % 3) as usize];
+    let (sess, res) = random_session(ctx, &mut r, cache);
     ctx.count("random_sessions");
+    ctx.count(&format!("session_cache:{cache:?}"));
     let h = crate::rng::fnv(serde_json::to_string(&sess.script).unwrap().as_bytes());
     ctx.eval(if sess.accepted > 0 { Some(h) } else { None });
     if let Err(f) = res {
